@@ -366,6 +366,11 @@ def parse_printed(out: str) -> list:
     res = []
     for line in out.splitlines():
         line = line.strip()
+        if line.startswith('<<"CASE", "') and line.endswith('">>'):
+            # fast path for PrintT(<<"CASE", ToJson(...)>>): a TLA+ string holding JSON
+            body = line[len('<<"CASE", "'):-3]
+            res.append(["CASE", body.replace('\\"', '"').replace("\\\\", "\\")])
+            continue
         if line.startswith('<<"') and line.endswith(">>"):
             try:
                 res.append(parse_tla(line))
